@@ -172,6 +172,12 @@ def _one(rng, fam, at, mon, sigs, hist):
         r = realise.realise(at, k=k, rng=rng, spacing="random" if rng.random() < 0.4 else "uniform",
                             relabel=bool(rng.integers(2)), shifts=True, flips="random", edge_dirs=True,
                             cell_order=bool(rng.integers(2)))
+        if posed["mode"] == "axis" and rng.random() < 0.6:
+            # the first SEGMENT of a curved interface exactly parallel to an axis (its sign vector has an exact zero)
+            at, seg = scen.axis_segment(rng, at, r)
+            if seg:
+                posed = dict(posed, segment=seg)
+                hist["axis-parallel-first-segment"] = hist.get("axis-parallel-first-segment", 0) + 1
         fr = frames.Frame(0, r.vertices, r.edges, r.cells)
         solver = fs.ForSys({0: fr})
         CTX["cur"] = {"at": at, "r": r, "fit": fit, "ignore_four": ign, "fam": fam, "pose": posed}
@@ -180,8 +186,13 @@ def _one(rng, fam, at, mon, sigs, hist):
                 # an earlier build of the same frame with OTHER options must not influence this one
                 CTX["cur"] = None
                 try:
+                    kw0 = {}
+                    if rng.random() < 0.5:
+                        # ... including an opening-angle limit that leaves interfaces out of THAT system only
+                        kw0["angle_limit"] = float(rng.uniform(0.55, 0.95) * np.pi)
+                        hist["earlier-build-with-angle-limit"] = hist.get("earlier-build-with-angle-limit", 0) + 1
                     solver.build_force_matrix(when=0, metadata={"ignore_four": not ign},
-                                              circle_fit_method=["dlite", "taubinSVD"][int(rng.integers(2))])
+                                              circle_fit_method=["dlite", "taubinSVD"][int(rng.integers(2))], **kw0)
                 except Exception:
                     pass
                 CTX["cur"] = {"at": at, "r": r, "fit": fit, "ignore_four": ign, "fam": fam, "pose": posed}
